@@ -15,6 +15,7 @@ from playback.exceptions import InputInterceptionKeyCreationError, OperationExce
     TapeRecorderException, RecordingKeyError
 from playback.utils.is_iterable import is_iterable
 from playback.utils.pickle_copy import pickle_copy
+from playback import _verif_trace
 
 _logger = logging.getLogger(__name__)
 
@@ -70,6 +71,7 @@ class TapeRecorder(object):
         self._active_recording_parameters = self._classes_recording_params.get(
             metadata[TapeRecorder.OPERATION_CLASS], RecordingParameters())
         _logger.info(u'Starting recording for category {} with id {}'.format(category, self._active_recording.id))
+        _verif_trace.emit('op_start', r=id(self), rid=self._active_recording.id)
         start_time = time()
         try:
             yield
@@ -79,6 +81,8 @@ class TapeRecorder(object):
             raise
         finally:
             # Recording was discarded
+            if self._active_recording is None:
+                _verif_trace.emit('finalise', r=id(self), rid=None, decision='discarded')
             if self._active_recording is not None:
                 recording = self._active_recording
                 force_sample = self.is_recording_sample_forced
@@ -90,6 +94,7 @@ class TapeRecorder(object):
 
                 if not self._should_sample_active_recording(recording, recording_parameters, force_sample):
                     self.tape_cassette.abort_recording(recording)
+                    _verif_trace.emit('finalise', r=id(self), rid=recording.id, decision='abort')
                 else:
                     duration = time() - start_time
 
@@ -99,9 +104,11 @@ class TapeRecorder(object):
                         self.tape_cassette.save_recording(recording)
                         _logger.info(u'Finished recording of category {} with id {}, recording duration {:.2f}'.format(
                             category, recording.id, duration))
+                        _verif_trace.emit('finalise', r=id(self), rid=recording.id, decision='save')
                     except Exception:
                         _logger.exception(u'Failed saving recording of category {} with id {}'.format(
                             category, recording.id))
+                        _verif_trace.emit('finalise', r=id(self), rid=recording.id, decision='save_failed')
 
     def discard_recording(self):
         """
@@ -112,6 +119,7 @@ class TapeRecorder(object):
                 u'Recording with id {} was discarded'.format(self._active_recording.id))
             self.tape_cassette.abort_recording(self._active_recording)
             self._reset_active_recording()
+            _verif_trace.emit('discard', r=id(self))
 
     def force_sample_recording(self):
         """
@@ -188,6 +196,7 @@ class TapeRecorder(object):
             return
         _logger.debug(u'Recording data for recording id {} under key {}'.format(recording.id, key))
         recording[key] = data
+        _verif_trace.emit('write', r=id(self), rid=recording.id, key=key)
 
     def _assert_recording(self):
         """
@@ -654,6 +663,8 @@ class TapeRecorder(object):
                 # If same alias (function) is invoked more than once we want to track each output invocation
                 self._invoke_counter[alias] += 1
                 invocation_number = self._invoke_counter[alias]
+                _verif_trace.emit('out', r=id(self), alias=alias, n=invocation_number,
+                                  mode='play' if self.in_playback_mode else 'rec')
 
                 # Both in recording and playback mode we record what is sent to the output
                 self._record_output(alias, invocation_number, args if static_function else args[1:], kwargs,
@@ -900,6 +911,7 @@ class TapeRecorder(object):
         """
         recording = self.tape_cassette.get_recording(recording_id)
         self._playback_recording = recording
+        _verif_trace.emit('play_start', r=id(self), rid=recording.id)
         start = time()
 
         try:
@@ -915,6 +927,7 @@ class TapeRecorder(object):
             self._playback_outputs = []
             # Clear any previous invocation counter state
             self._invoke_counter = Counter()
+            _verif_trace.emit('play_end', r=id(self))
 
         recorded_duration = recording.get_metadata()[TapeRecorder.DURATION]
         recorded_outputs = self._extract_recorded_output(recording)
